@@ -511,13 +511,20 @@ http_sconn_rxdone(void *arg)
 
 	sc->unconsumed_body = 0;
 	if ((cls = nni_http_get_header(sc->conn, "Content-Length")) != NULL) {
-		char *end;
-		sc->unconsumed_body = strtoull(cls, &end, 10);
-		if ((end == NULL) && (*end != '\0')) {
-			sc->unconsumed_body = 0;
+		char              *end;
+		unsigned long long len;
+		// The value has to be made of digits only (RFC 9110 8.6).
+		// Note that strtoull on its own also accepts leading white
+		// space and a sign, and that it saturates on overflow.
+		len = strtoull(cls, &end, 10);
+		if ((!isdigit((unsigned char) cls[0])) || (*end != '\0') ||
+		    (len >= SIZE_MAX)) {
+			// We cannot tell where this request ends.
+			sc->close = true;
 			http_sconn_error(sc, NNG_HTTP_STATUS_BAD_REQUEST);
 			return;
 		}
+		sc->unconsumed_body = (size_t) len;
 	}
 
 	host = nni_http_get_header(sc->conn, "Host");
